@@ -69,8 +69,9 @@ func checkJsonType(node ischema.Node, value bytes.Bytes) {
 		}
 	}
 
-	if jsonType == schemaType ||
-		(jsonType == json.TypeInteger && schemaType == json.TypeFloat) {
+	// An integer example is not a value of a float type: the example of a node
+	// that says `type: "float"`, or that refers to a float type, is refused as well.
+	if jsonType == schemaType {
 		return
 	}
 
